@@ -92,7 +92,7 @@ def judge2_c07(line, impl):
         sent = "".join(w for w in t[6].split(",") if w != "-") or "-"
         return ("recread %s %s %s %s %s %s" % (t[1], t[2], t[3], t[4], wire, sent), "%s eof 1" % sent)
     return None
-HOOK_COMMITS = ["f0964c3", "f0ee85c", "a38392f", "da161e5", "5e35e30", "48a35e4", "bcc879f", "e7e32d2", "7bc6616", "1d0b9a9", "1418b64", "cbd428e", "2855402"]
+HOOK_COMMITS = ["f0964c3", "f0ee85c", "a38392f", "da161e5", "5e35e30", "48a35e4", "bcc879f", "e7e32d2", "7bc6616", "1d0b9a9", "1418b64", "cbd428e", "2855402", "ccf80ce"]
 NOT_BUILT_REASON = "no check registered yet: the Lean model/theorems and the correspondence harness for this property have not been built in this session (work in progress, see DESIGN.md §12); the technique applies"
 
 PROPS["C05"] = {
@@ -591,20 +591,25 @@ PROPS["C08"] = {
 }
 
 PROPS["C20"] = {
-    "modules": ["Gmsm.Props.C20", "Gmsm.Props.C20Interlock"],
+    "modules": ["Gmsm.Props.C20", "Gmsm.Props.C20Interlock", "Gmsm.Props.C20Locks"],
     "theorems": [
+        "Props.C20Locks.must_sound", "Props.C20Locks.may_sound", "Props.C20Locks.must_ok", "Props.C20Locks.may_ok",
+        "Props.C20Locks.no_touch_violation", "Props.C20Locks.no_reacquisition", "Props.C20Locks.order_edges_expected",
+        "Props.C20Locks.facts_present", "Props.C20Locks.half_protected", "Props.C20Locks.half_call_protected",
+        "Props.C20Locks.no_reacquire",
         "Props.C20.sm4_order_independent", "Props.C20.sm4_interleaving", "Props.C20.sm3_objects_independent",
         "Props.C20.ticket_keys_snapshot", "Props.C05.history_independent", "Props.C04.hist_refines", "Props.C20Interlock.counter_invariant", "Props.C20Interlock.at_most_one_close_proceeds", "Props.C20Interlock.close_idempotent", "Props.C20Interlock.no_write_after_close", "Props.C20Interlock.close_notify_only_when_quiet", "Props.C20Interlock.linearizable_outcomes", "Props.C20Interlock.progress", "Props.C20Interlock.constants_pinned",
     ],
     "gen_items": ["gmtls."],
-    "gen_obligations": ["Gen.Conn interlock constants (x+2, x|1, -2, x&1) regenerated from gmtls/conn.go Write/Close; constants_pinned re-proved on every run"],
+    "gen_obligations": ["Gen.Conn interlock constants (x+2, x|1, -2, x&1) regenerated from gmtls/conn.go Write/Close; constants_pinned re-proved on every run",
+                        "Gen.ConnLocks (which mutexes each method of Conn / halfConn / the handshake states acquires, its call sites with the locks held there, where the read / write half is touched, and the must / may lock-set tables) regenerated from gmtls/*.go; must_ok, may_ok, no_touch_violation, no_reacquisition, order_edges_expected, facts_present re-proved by kernel evaluation on every run"],
     "race": True,
     "par_chunk": 3,
     "op_timeout": 400,
     "level": "proof",
-    "claim": "What is proved: the sequential models of the shared objects are order-independent — every Encrypt/Decrypt result on one shared SM4 object is the GM/T 0002 value of that call's own source block for every call sequence, hence for every interleaving of any number of callers' sequences (sm4_order_independent, sm4_interleaving, from C05.history_independent); hash objects from the constructor are independent (sm3_objects_independent, from C04.hist_refines); a ticket lookup concurrent with a key rotation sees the old or the new key list, never a mixture (ticket_keys_snapshot). These make 'equals the single-threaded result' a well-defined oracle. What is run: ten concurrent scenarios (one shared sm4 cipher.Block also under CBC/GCM; the package-level sm4 helpers; sm3 constructors, HMAC, PBKDF2; SM2 sign/verify/encrypt/decrypt/key exchange on one shared key and on separate keys; first use of the curve from many goroutines in a fresh process; parsers on shared inputs; PKCS#7 encryption; one CertPool under concurrent Verify with succeeding and failing options; many simultaneous GMSSL handshakes on one server Config and one client Config with an LRU session cache while SetSessionTicketKeys rotates keys; concurrent writers, readers and three concurrent Close calls on one established GMSSL-CBC / GMSSL-GCM / TLS 1.2 connection), each in its own process built with the Go race detector (halt on first report), 2..32 goroutines released together with seeded scheduling jitter; every concurrent result is compared with the result of the same calls run sequentially on identical fresh objects. Added (C20Interlock, Model.ConnInterlock): the Write/Close interlock of Conn (the atomic activeCall counter) as a transition system with any number of writer and closer threads, and theorems over ALL schedules: counter_invariant (activeCall = 2 x writers in flight + closed bit), at_most_one_close_proceeds, close_idempotent, no_write_after_close, close_notify_only_when_quiet (close_notify is sent at most once and only if no Write was in flight at the winning CAS), linearizable_outcomes (the per-thread verdicts of any schedule equal those of a sequential order: the writers that got through, the winning Close, the rest refused) and progress (every fair schedule terminates; bounded retries); the constants of the model are pinned to the source by the extractor (constants_pinned).",
+    "claim": "What is proved: the sequential models of the shared objects are order-independent — every Encrypt/Decrypt result on one shared SM4 object is the GM/T 0002 value of that call's own source block for every call sequence, hence for every interleaving of any number of callers' sequences (sm4_order_independent, sm4_interleaving, from C05.history_independent); hash objects from the constructor are independent (sm3_objects_independent, from C04.hist_refines); a ticket lookup concurrent with a key rotation sees the old or the new key list, never a mixture (ticket_keys_snapshot). These make 'equals the single-threaded result' a well-defined oracle. What is run: ten concurrent scenarios (one shared sm4 cipher.Block also under CBC/GCM; the package-level sm4 helpers; sm3 constructors, HMAC, PBKDF2; SM2 sign/verify/encrypt/decrypt/key exchange on one shared key and on separate keys; first use of the curve from many goroutines in a fresh process; parsers on shared inputs; PKCS#7 encryption; one CertPool under concurrent Verify with succeeding and failing options; many simultaneous GMSSL handshakes on one server Config and one client Config with an LRU session cache while SetSessionTicketKeys rotates keys; concurrent writers, readers and three concurrent Close calls on one established GMSSL-CBC / GMSSL-GCM / TLS 1.2 connection), each in its own process built with the Go race detector (halt on first report), 2..32 goroutines released together with seeded scheduling jitter; every concurrent result is compared with the result of the same calls run sequentially on identical fresh objects. Added (C20Interlock, Model.ConnInterlock): the Write/Close interlock of Conn (the atomic activeCall counter) as a transition system with any number of writer and closer threads, and theorems over ALL schedules: counter_invariant (activeCall = 2 x writers in flight + closed bit), at_most_one_close_proceeds, close_idempotent, no_write_after_close, close_notify_only_when_quiet (close_notify is sent at most once and only if no Write was in flight at the winning CAS), linearizable_outcomes (the per-thread verdicts of any schedule equal those of a sequential order: the writers that got through, the winning Close, the rest refused) and progress (every fair schedule terminates; bounded retries); the constants of the model are pinned to the source by the extractor (constants_pinned). Lock discipline of one connection as a static analysis over regenerated facts (Model.ConnLocks, Props.C20Locks): for ALL call paths from an exported method - any depth, recursion allowed - the lock-set tables are sound (must_sound, may_sound: induction over paths from the two table checks), hence whenever the state of the read half or the write half is touched, directly or through a halfConn method, the goroutine holds that half's mutex or the handshake mutex (half_protected, half_call_protected), no goroutine locks a mutex it already holds (no_reacquire), and the lock-order edges are the four known ones (order_edges_expected). On the code as found this analysis failed at exactly one call site (readHandshake -> sendAlertLocked holding c.in only), a genuine race confirmed by the race detector (op conc renegbig) and repaired (fix 1d83437). Scenarios renegrefuse / renegbig run Read and several Writes on one connection while the peer sends a post-handshake handshake record.",
     "note": "Partial by nature: data-race freedom and the outcome of real schedules are properties of the Go runtime and memory model that no executable Lean model exhibits; the race detector only sees the interleavings that occur in the runs (quick: 20 scenario runs, thorough: 120). The theorems are about sequential order-independence of the modelled cores only (SM4 object, SM3 object, ticket-key snapshot); Conn's locking discipline (handshakeMutex, in/out mutexes, activeCall) is exercised by the tlsconn scenario, not modelled.",
     "trusted_base": ["Go race detector (ThreadSanitizer runtime shipped with the toolchain)", "harness/c20.go scenarios and sequential reference pass", "Model.SM4 / Model.SM3 / Model.Resume ties of C05, C04, C16"],
     "assumptions": ["a concurrent execution of whole calls on a correctly synchronised object is equivalent to some sequential order (linearizability is what the race-free, lock-protected code provides; it is not proved)"],
-    "not_proved": ["race freedom for all schedules (race detector, sampled)", "Conn.Read and handshakeMutex in the interlock model; the Go memory model (atomics taken as sequentially consistent)"],
+    "not_proved": ["race freedom for all schedules (race detector, sampled)", "the lock facts are syntactic (go/ast): calls are resolved by method name and receiver shape, closures are taken to run in place, every Lock() is assumed to be paired with a deferred Unlock() (checked by the extractor); liveness (absence of deadlock between DIFFERENT goroutines) is argued from the order edges in the doc comment of expectedEdges, not proved; the Go memory model (atomics taken as sequentially consistent)"],
 }
